@@ -121,7 +121,11 @@ def check_final(w, final_blocks, res, failures, limit, label='final', fresh=True
                          dict(db_height=w.db.state.height, bp_height=w.bp.state.height,
                               daemon=len(final_blocks) - 1)))
         return
-    obs = observe.observe(w, ref, what=WHAT)
+    try:
+        obs = observe.observe(w, ref, what=WHAT)
+    except (world.ReaderBlocked, observe.ReadFailed) as e:
+        failures.append((f'{label}:read-failed', dict(error=repr(e))))
+        return
     for field, detail in observe.compare(obs, ref, WHAT):
         failures.append((f'{label}:{field}', detail if isinstance(detail, dict) else {'v': detail}))
     res.count('observations')
